@@ -67,10 +67,17 @@ def gen_case(rng: random.Random):
             test.append(s)
         prog.append(test)
     F = [c for c in CATS if rng.random() < 0.4]
-    return {"ops": ops, "srcs": srcs, "prog": prog, "F": F, "imp": rng.random() < 0.3}
+    # comparisons at module level (outside of every test), never asserted: no test may be charged for them
+    pre = []
+    if rng.random() < 0.3:
+        for _ in range(rng.randrange(1, 3)):
+            i = rng.randrange(nsites)
+            if ops[i] in ("eq", "le", "ge", "in"):
+                pre.append({"site": i + 1, "assert": False, "k": 0, "x": rng.randrange(NATOMS), "op": ops[i]})
+    return {"ops": ops, "srcs": srcs, "prog": prog, "F": F, "imp": rng.random() < 0.3, "pre": pre}
 
 
-def run_case(args, second=False):
+def run_case(args, second=False, session=False):
     """execute one generated case and return its trace (or a harness-level problem); second = the same session
     again on the file the first one wrote (its trace starts from the sources observed after the first)"""
     case, seed = args
@@ -78,23 +85,31 @@ def run_case(args, second=False):
     rng = random.Random("%s|%s" % (json.dumps(case, sort_keys=True), seed))
     ops, srcs, prog = case["ops"], case["srcs"], case["prog"]
     beta = render_core.Beta(rng, NATOMS, ops, render_core.needs_order(ops, prog))
-    text = render_core.render(ops, srcs, prog, beta, case["imp"], rng)
+    pre = case.get("pre") or []
+    text = render_core.render(ops, srcs, prog, beta, case["imp"], rng, pre=pre)
     if second:
         first = run_case(args)
         if first.get("problem") or any(e.get("v") == 99 for a in first["trace"]["after"] for e in a["e"]):
             return None
         text, srcs = first["new"], first["trace"]["after"]
-    obs = inline_driver.run_session({"test_case.py": text}, case["F"])
+    if session:
+        # a real pytest session of the plugin (its fixture charges the counters to the tests)
+        from . import core_replay
+        obs = core_replay.session_run(text, case["F"], rng)
+    else:
+        obs = inline_driver.run_session({"test_case.py": text}, case["F"])
     if obs.get("import_error") or obs.get("finish_error"):
         return {"case": case, "text": text, "problem": ["finish", obs.get("import_error") or obs.get("finish_error")[:2]]}
     events = []
     for t, j, res in obs["log"]:
-        s = prog[t - 1][j - 1]
+        s = pre[j - 1] if t == 0 else prog[t - 1][j - 1]
         res = {"ValueError": "EX", "UsageError": "UE"}.get(res, res)
         if s["op"] in ("none", "chg", "dget") and res == "T":
             res = "-"
         events.append({"t": t, "site": s["site"], "op": s["op"], "k": s["k"], "x": s["x"], "assert": s["assert"], "res": res})
     failed = [bool(tr["exc"] or tr["missing"] or tr["incorrect"]) for tr in obs["tests"]]
+    if session and len(failed) != len(prog):
+        return {"case": case, "text": text, "problem": ["finish", ["tests-lost", str(len(failed))]]}
     orig = inline_driver.snapshot_args(text)
     line_to_site = {"test_case.py:%d:%d" % (l, c): i for i, (l, c, _, _) in enumerate(orig, 1)}
     pend = [[] for _ in ops]
@@ -115,10 +130,10 @@ def run_case(args, second=False):
     trace = {"srcs": srcs, "U": case["F"], "A": case["F"], "imp": case["imp"], "ntests": len(prog), "events": events,
              "failed": failed, "pending": pend, "after": after}
     return {"case": case, "text": text, "new": obs["files"]["test_case.py"], "trace": trace, "problem": None,
-            "second": second, "rewritten": obs["files"]["test_case.py"] != text}
+            "second": second, "session": session, "rewritten": obs["files"]["test_case.py"] != text}
 
 
-def validate(chk, n, flags="any", cases=None, second=0.0):
+def validate(chk, n, flags="any", cases=None, second=0.0, sessions=0):
     """generate n cases, execute them, validate the traces with TLC; mismatches go to chk
     flags: "any" = a random approved set per case, "none" = nothing approved (C06)"""
     from . import pool, tlc
@@ -135,6 +150,12 @@ def validate(chk, n, flags="any", cases=None, second=0.0):
         # histories: the same session a second time (a fraction `second` of the cases)
         again = [c for c in cases if c["F"] and rng.random() < second]
         jobs += [(c, chk.seed, True) for c in pool.chunks(again, 25)]
+    if sessions:
+        # a sample as real sessions (cases with comparisons at module level first)
+        from . import session_driver
+        session_driver.preload()
+        cand = sorted(cases, key=lambda c: (not c.get("pre"), ))[:sessions]
+        jobs += [(c, chk.seed, "session") for c in pool.chunks(cand, 5)]
     for out in pool.parallel_map(_worker, jobs):
         results += [r for r in out if r is not None]
     good = [r for r in results if r.get("problem") is None and "error" not in r]
@@ -168,12 +189,12 @@ def validate(chk, n, flags="any", cases=None, second=0.0):
         nontrivial = any(tr["failed"]) or any(tr["pending"]) or any(e["res"] in ("TE", "UE") for e in tr["events"])
         chk.count(1, "trace|%d" % tid if nontrivial else None)
         chk.validated(1)
-        rp = {"kind": "trace-case", "case": r["case"], "seed": chk.seed, "second": r["second"], "module": r["text"], "module_after": r["new"], "trace": r["trace"], "tlc": detail}
+        rp = {"kind": "trace-case", "case": r["case"], "seed": chk.seed, "second": r["second"], "session": r.get("session"), "module": r["text"], "module_after": r["new"], "trace": r["trace"], "tlc": detail}
         if not res_ok:
             chk.mismatch("trace-result", {"clause": "trace-result", "F": F}, rp, props=(["C06"] if not F else ["C07", "C02"]) + ["C14", "C17", "C18"])
         if not failed_ok:
-            chk.mismatch("trace-failed", {"clause": "trace-failed", "F": F}, rp, props=["C07"])
-        if not pend_ok:
+            chk.mismatch("trace-failed", {"clause": "trace-failed", "F": F}, rp, props=["C07"] + ([] if F else ["C06"]))
+        if not pend_ok and not r.get("session"):
             chk.mismatch("trace-pending", {"clause": "trace-pending", "F": F}, rp, props=["C05", "C14"])
         if not src_ok:
             chk.mismatch("trace-newsrc", {"clause": "trace-newsrc", "F": F, "second": r["second"]}, rp,
@@ -196,7 +217,7 @@ def _worker(args):
     out = []
     for c in cases:
         try:
-            out.append(run_case((c, seed), second))
+            out.append(run_case((c, seed), second is True, session=second == "session"))
         except Exception:  # noqa
             import traceback
             out.append({"error": traceback.format_exc()[-1500:]})
